@@ -253,7 +253,10 @@ theorem defineLoop_seg (file : List Line) (sym : Bytes) (ls : List PatchLine) :
         0 (by omega) hops' hT' hD' hfile' (line_lastUnterm _ _ hTp)
       have hstep : defineLoop file sym (pl :: rest) cur (stOf g) w = defineLoop file sym rest (cur + 1) .outside
           ((if stOf g ≠ .outside then w.directive dEndif (terminatorOf pl.line) else w).line (.fromFile cur pl.line)) := by
-        rw [defineLoop.eq_def]; simp [hop, hl]
+        have hne : (cur == file.length) = false := by
+          have := (List.getElem?_eq_some_iff.1 hl).1
+          simp; omega
+        rw [defineLoop.eq_def]; simp [hop, hl, hne]
       refine ⟨(if stOf g ≠ .outside then [.directive ⟨dEndif, terminatorOf pl.line⟩] else []) ++
           .fromFile cur pl.line :: outs, ?_, ?_⟩
       · rw [hstep]
